@@ -182,7 +182,8 @@ def check_props_file(pid, log):
     path = os.path.join(COQ, vf)
     src = open(path).read()
     theorems = re.findall(r'^\s*Theorem\s+([A-Za-z0-9_\']+)', src, re.M)
-    rc, out = sh([os.path.join(ROOT, "bin/coqc-limited"), "-Q", ".", "TR", "-w", "-notation-overridden", "-o", os.path.join(BUILD, "props_%s.vo" % pid), vf], cwd=COQ)
+    os.makedirs(os.path.join(BUILD, "props"), exist_ok=True)
+    rc, out = sh([os.path.join(ROOT, "bin/coqc-limited"), "-Q", ".", "TR", "-w", "-notation-overridden", "-o", os.path.join(BUILD, "props", "%s.vo" % pid), vf], cwd=COQ)
     log.append("== coqc %s rc=%d\n%s" % (vf, rc, out[-4000:]))
     assumptions = {}
     # Print Assumptions output: either "Closed under the global context" or "Axioms:\n name : type ..."
